@@ -3,6 +3,8 @@ package props
 import (
 	"strings"
 
+	"verif/mc/drive"
+
 	"verif/mc/refsem"
 )
 
@@ -26,6 +28,11 @@ func textFam(prop, name string, progs []textProg) *scaleFam {
 		}
 		return scaleCase{Prog: t.Prog, Files: files, ModelWant: true, Root: t.Root}
 	}}
+}
+
+// fixedFam: a list of fixed programs with closed-form results.
+func fixedFam(prop, name string, cases []scaleCase) *scaleFam {
+	return &scaleFam{Prop: prop, Name: name, Max: len(cases), QMax: len(cases), All: true, Build: func(n int) scaleCase { return cases[n-1] }}
 }
 
 func specialFamilies() []*scaleFam {
@@ -145,6 +152,66 @@ func specialFamilies() []*scaleFam {
 		textFam("C16", "method names computed at one site, different from evaluation to evaluation", []textProg{
 			{Prog: "{ print $.v[$.how]() }\n", Input: `[{"v": "MiXed", "how": "lower"}, {"v": "MiXed", "how": "upper"}, {"v": "MiXed", "how": "length"}, {"v": "MiXed", "how": "lower"}, {"v": [3, 1], "how": "length"}, {"v": [3, 1], "how": "sort"}, {"v": "q", "how": "upper"}]`},
 			{Prog: "function apply(x, m) { return x[m]() }\nBEGIN { print apply(2.5, \"floor\"), apply(2.5, \"ceil\"), apply(2.5, \"round\"), apply(-2.5, \"floor\"), apply(\"Ab\", \"upper\"), apply(\"Ab\", \"lower\"), apply(\"Ab\", \"length\"), apply([2, 1], \"sort\"), apply([2, 1], \"pop\") }\n"},
+		}),
+		// ---- round 10: names bound by a match to the subject itself, assigned in the body; state keyed by the rule
+		fixedFam("C07", "a literal as match subject, bound by name, assigned in the body, then the literal again", []scaleCase{
+			// (what the assignment does to the bound name and to the subject is not fixed by any statement - 7.1 - and is not printed;
+			// what the same literals mean afterwards is)
+			{Prog: "BEGIN { match (true) { armed => { armed = false } } if (true) { print \"then\" } else { print \"else\" } n = 0; while (true) { n++; if (n > 2) { break } } print n; for (k = 0; true; k++) { if (k > 1) { break } } print k; print true, false, null, ! true }\n", Want: "then\n3\n2\ntrue false null false\n"},
+			{Prog: "BEGIN { match (false) { f => { f = true } } match (null) { z => { z = 5 } } if (false) { print \"wrong\" } print null, false, null is null, false || false; x = null; print x, [null, false] }\n", Want: "null false true false\nnull [null, false]\n"},
+			{Prog: "{ match (\"id\") { s => { s = s + \"-\" + $ } } match (0) { n => { n += $ } } match (1.5) { q => { q++ } } print \"id\", 0, 1.5, \"id\" + $, 0 + $ }\n", Files: []inFile{{Name: "in.json", Text: "[1, 2, 3]"}}, Want: "id 0 1.5 id1 1\nid 0 1.5 id2 2\nid 0 1.5 id3 3\n"},
+			{Prog: "function tag(v) { match ('t') { s => { s = s + v } } return 't' + v }\nfunction cnt() { match (10) { c => { c++ } } return 10 }\nBEGIN { print tag(1), tag(2), \"t\", 't', cnt(), cnt(), 10 }\n", Want: "t1 t2 t t 10 10 10\n"},
+			{Prog: "{ match (match ($) { [p, q] => 0 }) { first => { first = \"none\" } }\nprint match (7) { 8 => 1 }, match ($) { other => { } }, match ($) { [a] => { } } }\n", Files: []inFile{{Name: "in.json", Text: `[5, [3], "s", 6]`}}, Want: "null null null\nnull null null\nnull null null\nnull null null\n"},
+		}),
+		textFam("C02", "what one special rule stores in $ and what the next one sees", []textProg{
+			{Prog: "BEGIN { $ = \"header\"; print $ }\nBEGIN { print $ }\n{ n += $ }\nEND { print $, n }\nEND { $ = 5 }\nEND { print $ }\n", Input: `[1, 2, 3]`},
+			{Prog: "BEGINFILE { print $; $ = [9] }\n{ print $ }\nENDFILE { print $; $ = 0 }\nENDFILE { print $ }\nEND { print $ }\n", Input: `[1] [2, 3]`},
+			{Prog: "$.contains(1) { $.pop() }\n$.contains(1) { print \"still\", $ }\n$.length() > 1 { $.pop(); print \"long\" }\n$.length() > 1 { print \"still long\", $ }\n{ print $ }\n", Input: `[[2, 1], [1, 2], [1, 1, 1]]`},
+		}),
+		textFam("C05", "is with a type word that is also the name of a variable", []textProg{
+			{Prog: "function clean(string) { if (string is string) { return \"a string\" } return \"not a string\" }\nBEGIN { print clean(\"beth\"), clean(5); number = \"n/a\"; array = \"string\"; print 4 is number, number is string, [1] is array, \"s\" is array, array is string; object = {}; bool = true; print object is object, bool is bool, unknown is unknown }\n"},
+			{Prog: "{ for (string in $) { print string is string, string is number } }\n", Input: `[["a", 1]]`},
+		}),
+		textFam("C11", "a failing operator in every kind of rule", []textProg{
+			{Prog: "{ sum += $; n++ }\nENDFILE { print \"file\", sum / (n - 2) }\nEND { print \"end\" }\n", Input: `[1, 2]`},
+			{Prog: "BEGINFILE { print \"bf\" }\nENDFILE { print 7 % 0.5 }\nEND { print \"end\" }\n", Input: `[1]`},
+			{Prog: "function avg() { return sum / n }\nENDFILE { print $ < []; print \"after\" }\n", Input: `[1]`},
+			{Prog: "ENDFILE { print $file ~ \"(\" }\nEND { print \"end\" }\n", Input: `[1]`},
+			{Prog: "BEGINFILE { print 1 % 0 }\n{ print }\n", Input: `[1]`},
+			{Prog: "END { print 1 / 0 }\nEND { print \"second\" }\n", Input: `[1]`},
+		}),
+		textFam("C08", "return, next and exit inside a for loop with a post expression", []textProg{
+			{Prog: "function first(a, want) { for (i = 0; i < a.length(); i++) { if (a[i] == want) { return i } } return -1 }\nfunction count() { for (g = 0; g < 10; g++) { if (g == 2) { return g } } }\nBEGIN { print first([5, 6, 7], 6), first([5], 5), first([], 1); print count() }\n"},
+			{Prog: "{ for (j = 0; j < 5; j++) { if (j == $) { next } } print \"not found\", $ }\nEND { print j }\n", Input: `[1, 9, 3]`},
+			{Prog: "BEGIN { for (k = 0; k < 5; k++) { if (k == 3) { exit } } }\nEND { print k }\n"},
+			{Prog: "function w() { q = 0; while (q < 5) { q++; if (q == 2) { return q } } }\nBEGIN { print w() }\n"},
+		}),
+		textFam("C09", "a match case with an expression body that is left by next", []textProg{
+			{Prog: "function drop() { next }\n$.t == \"a\" { match ($) { rec => drop() } }\n{ rec = \"x\" }\nENDFILE { print $ }\n", Input: `[{"t": "a"}, {"t": "b"}, {"t": "c"}]`, Root: true},
+			{Prog: "function stop(v) { if (v > 1) { next } return v }\n{ print match ($) { n => stop(n) + 1 }\nn = \"global\" }\nEND { print n }\n", Input: `[1, 2, 3, 1]`, Root: true},
+			{Prog: "{ for (v in [$]) { x = match (v) { 2 => 0, w => w * 2 }\nif (x == 0) { continue } print x } w = 9 }\n", Input: `[1, 2, 3]`, Root: true},
+		}),
+		textFam("C16", "methods called directly on $file and on other values the runtime makes", []textProg{
+			{Prog: "{ print $file.length(), $file.upper(), $file.split(\".\")[-1], $file.split(\"/\").length(), $file + \"\", $index.floor() }\nBEGINFILE { print $file.lower() }\nENDFILE { f = $file; print f.length() }\n", Input: `[1, 2]`},
+		}),
+		textFam("C04", "a plucked copy whose members are assigned", []textProg{
+			{Prog: "{ small = $.pluck(\"name\", \"n\", \"tags\"); small.n = 0; small.name = \"anon\"; small.extra = 1; small.tags.push(\"t\"); print small }\n", Input: `{"name": "ann", "n": 5, "tags": ["a"], "other": true}`, Root: true},
+			{Prog: "{ c = $.pluck(\"a\"); c.a++; c.a += 10; d = c.pluck(\"a\"); d.a = \"s\"; print c, d }\n", Input: `[{"a": 1, "b": 2}]`, Root: true},
+		}),
+		fixedFam("C03", "root selectors with a variable of their own, value after value", []scaleCase{
+			{Prog: "{ print }\n", Sels: []string{"$[i++]"}, Files: []inFile{{Name: "in.json", Text: "[[1],[2]] [[3],[4]] [[5],[6]]"}}, Want: "1\n3\n5\n", CLI: true},
+			{Prog: "{ print $ }\nEND { print i is unknown, n is unknown }\n", Sels: []string{"$.rows[n = n + 1]", "[i++, i++]"}, Files: []inFile{{Name: "in.json", Text: `{"rows": [1, 2, 3]} {"rows": [4, 5, 6]}`}, {Name: "second.json", Text: `{"rows": [7, 8, 9]}`}}, Want: "2\n0\n1\n5\n0\n1\n8\n0\n1\ntrue true\n", CLI: true},
+			{Prog: "{ print $ }\n", Sels: []string{"$[2]"}, Files: []inFile{{Name: "in.json", Text: "[[10, 11], [20]] [1, 2, 3] [] [1, 2]"}}, Want: "null\n3\nnull\nnull\n", CLI: true},
+			{Prog: "{ print \"r\", $ }\n", Sels: []string{"$.rows[0]", "$.rows[1]"}, Files: []inFile{{Name: "in.json", Text: `{"rows": []} {"rows": [5]} {"rows": [6, 7]}`}}, Want: "r null\nr null\nr 5\nr null\nr 6\nr 7\n", CLI: true},
+			{Prog: "{ print \"r\", $ }\n", Sels: []string{"$.rows[0]", "$.rows[-1]"}, Files: []inFile{{Name: "in.json", Text: `{"rows": [5]} {"rows": []}`}}, Kind: drive.KRuntime, Want: "r 5\nr 5\n", Line: 1, SrcLine: "$.rows[-1]"},
+		}),
+		fixedFam("C12", "faults inside a root selector are positioned in the selector", []scaleCase{
+			{Prog: "BEGIN { print \"start\" }\n{ print \"rule\", $ }\nEND { print \"end\" }\n", Sels: []string{"$.result.length"}, Files: []inFile{{Name: "in.json", Text: `{"status": "ok", "result": {"a": 1, "b": 2}}`}}, Want: "start\n", Kind: drive.KRuntime, Line: 1, SrcLine: "$.result.length", CLI: true},
+			{Prog: "BEGIN { n = 0 }\n{ print }\n", Sels: []string{"match ($) { x => { next } }"}, Files: []inFile{{Name: "in.json", Text: "[1]"}}, Want: "", Kind: drive.KRuntime, Line: 1, SrcLine: "match ($) { x => { next } }", CLI: true},
+			{Prog: "BEGIN { n = 0 }\n{ print }\n", Sels: []string{"$.items.pluck"}, Files: []inFile{{Name: "in.json", Text: `{"items": {"a": 1}}`}}, Want: "", Kind: drive.KRuntime, Line: 1, SrcLine: "$.items.pluck", CLI: true},
+			{Prog: "# a comment line\n\nBEGIN { print \"start\" }\n{ print }\n", Sels: []string{"$.a", "$.b +\n  1 % 0"}, Files: []inFile{{Name: "in.json", Text: `{"a": 1, "b": 2}`}}, Want: "start\n", Kind: drive.KRuntime, Line: 2, SrcLine: "  1 % 0"},
+			{Prog: "BEGIN { print \"begin\" }\n", Sels: []string{"[printf(\"header\\n\"), printf(\"%70000s\", \"x\")]"}, Files: []inFile{{Name: "in.json", Text: `{"rows": [1, 2]}`}}, Want: "begin\nheader\n", Kind: drive.KRuntime, CLI: true},
+			{Prog: "BEGIN { print \"begin\" }\n", Sels: []string{"[printf(\"header\\n\"), $.rows[2000000] = 1]"}, Files: []inFile{{Name: "in.json", Text: `{"rows": [1, 2]}`}}, Want: "begin\nheader\n", Kind: drive.KRuntime, CLI: true},
 		}),
 		textFam("C20", "names and index values met far from the start", []textProg{
 			{Prog: "function bump(num) { return num + 1 }\nfunction walk(n) { if (n == 0) { return bump(num(\"41\")) } return walk(n - 1) }\nBEGIN { print walk(0), walk(60), walk(100), walk(1000) }\n"},
